@@ -296,6 +296,13 @@ class Folder(object):
             return self.eval(e.body if self.eval(e.test, env, mod)
                              else e.orelse, env, mod)
         if isinstance(e, ast.Attribute):
+            if isinstance(e.value, ast.Name) and \
+                    (e.value.id + "." + e.attr) in env:
+                v = env[e.value.id + "." + e.attr]
+                if isinstance(v, FoldErrorValue):
+                    raise FoldError("%s.%s does not fold: %s" % (
+                        e.value.id, e.attr, v.reason))
+                return v
             base = self.eval(e.value, env, mod)
             if isinstance(base, EnumClass):
                 if e.attr in base.members:
@@ -551,3 +558,69 @@ def consts_for(folder, fn):
         cache[name] = v
         return v
     return lookup
+
+
+def fold_body(folder, fn, env, self_attrs=True):
+    """Constant-propagate the straight-line part of a function body for
+    given constant parameter values: Assign / AugAssign / If with a foldable
+    test.  ``self.x = ...`` stores are kept under the key "self.x".  Stops at
+    the first Return (its value is returned under "<return>"), nested defs are
+    skipped, anything else that does not fold raises FoldError.  Used only to
+    fold finite parameter tables (e.g. the eight admitted (signed, n_bits)
+    pairs of a converter), never on runtime inputs."""
+    mod = fn._module
+    env = dict(env)
+
+    class _Self(object):
+        pass
+
+    def ev(e):
+        full = dict(folder.module_env(mod.name))
+        full.update(env)
+        return folder.eval(e, full, mod)
+
+    def run(stmts):
+        for s in stmts:
+            if isinstance(s, ast.Expr) and isinstance(s.value, ast.Constant):
+                continue
+            if isinstance(s, (ast.FunctionDef, ast.ClassDef)):
+                continue
+            if isinstance(s, ast.Assign):
+                try:
+                    v = ev(s.value)
+                except FoldError as e:
+                    v = FoldErrorValue(str(e))
+                for t in s.targets:
+                    if isinstance(t, ast.Name):
+                        env[t.id] = v
+                    elif isinstance(t, ast.Attribute) and \
+                            isinstance(t.value, ast.Name) and \
+                            t.value.id == "self":
+                        env["self." + t.attr] = v
+                    elif isinstance(t, ast.Tuple) and not isinstance(
+                            v, FoldErrorValue):
+                        for tt, vv in zip(t.elts, v):
+                            if isinstance(tt, ast.Name):
+                                env[tt.id] = vv
+                continue
+            if isinstance(s, ast.If):
+                c = ev(s.test)
+                r = run(s.body if c else s.orelse)
+                if r is not None:
+                    return r
+                continue
+            if isinstance(s, ast.Return):
+                try:
+                    return ("ret", ev(s.value) if s.value is not None
+                            else None)
+                except FoldError:
+                    return ("ret", None)
+            if isinstance(s, ast.Raise):
+                return ("raise", None)
+            if isinstance(s, ast.Expr):
+                continue        # a call for effect (warnings.warn ...)
+            raise FoldError("fold_body: %s" % type(s).__name__)
+        return None
+    out = run(fn.body)
+    env["<exit>"] = out
+    return env
